@@ -150,6 +150,8 @@ impl PageLockShard {
     }
 
     fn get_or_create(&self, page_id: PageId) -> Arc<PageLockEntry> {
+        #[cfg(kahflane_turdb_verif)]
+        crate::verif_hooks::yield_point("pagelock.get_or_create");
         let mut map = self.locks.lock();
         if let Some(entry) = map.get(&page_id) {
             entry.acquire();
@@ -162,6 +164,8 @@ impl PageLockShard {
 
     fn try_cleanup(&self, page_id: PageId, entry: &PageLockEntry) {
         if entry.release() {
+            #[cfg(kahflane_turdb_verif)]
+            crate::verif_hooks::yield_point("pagelock.cleanup.map_lock");
             let mut map = self.locks.lock();
             if entry.ref_count.load(Ordering::Acquire) == 0 {
                 map.remove(&page_id);
@@ -201,7 +205,11 @@ impl Drop for PageReadGuard<'_> {
         // std::mem::forget was called to prevent automatic unlock. We are the
         // sole owner of this read lock and must manually release it here.
         // The entry Arc keeps the lock data alive until after this unlock.
+        #[cfg(kahflane_turdb_verif)]
+        crate::verif_hooks::yield_point("pagelock.unlock_read");
         unsafe { self.entry.lock.force_unlock_read() };
+        #[cfg(kahflane_turdb_verif)]
+        crate::verif_hooks::yield_point("pagelock.release");
         self.shard.try_cleanup(self.page_id, &self.entry);
     }
 }
@@ -218,7 +226,11 @@ impl Drop for PageWriteGuard<'_> {
         // std::mem::forget was called to prevent automatic unlock. We are the
         // sole owner of this write lock and must manually release it here.
         // The entry Arc keeps the lock data alive until after this unlock.
+        #[cfg(kahflane_turdb_verif)]
+        crate::verif_hooks::yield_point("pagelock.unlock_write");
         unsafe { self.entry.lock.force_unlock_write() };
+        #[cfg(kahflane_turdb_verif)]
+        crate::verif_hooks::yield_point("pagelock.release");
         self.shard.try_cleanup(self.page_id, &self.entry);
     }
 }
@@ -356,6 +368,8 @@ impl PageLockManager {
         let entry = shard.get_or_create(page_id);
 
         let contended = entry.lock.try_read().is_none();
+        #[cfg(kahflane_turdb_verif)]
+        crate::verif_hooks::yield_point("pagelock.acquire_read");
 
         let guard = entry.lock.read();
         std::mem::forget(guard);
@@ -375,6 +389,8 @@ impl PageLockManager {
         let entry = shard.get_or_create(page_id);
 
         let contended = entry.lock.try_write().is_none();
+        #[cfg(kahflane_turdb_verif)]
+        crate::verif_hooks::yield_point("pagelock.acquire_write");
 
         let guard = entry.lock.write();
         std::mem::forget(guard);
